@@ -37,6 +37,7 @@ const (
 	ReqStoredVisit = 17
 	ReqReuse       = 18
 	ReqMergeVec    = 19
+	ReqEnum        = 20
 )
 
 var Plugin = &zap.ZapPlugin{}
